@@ -130,16 +130,19 @@ class Map(Evaluatable[Iterable[Tuple[Dict[str, JSON], A]]]):
     def explain(self, options: Optional[Options] = None) -> Set[str]:
         """Return the option keys required by the evaluatable and the option iterables"""
         try:
-            return set().union(
-                self._iter(options or {}).explain(options),
-                *(iterable.explain(options) for iterable in self.iterables.values()),
-            )
+            iterated = self._iter(options or {})
         except EvaluationError:
+            # the option values to iterate over are not known yet
             return (
                 self.evaluatable.explain(options) - self.iterables.keys()
             ) | set().union(
                 *(iterable.explain(options) for iterable in self.iterables.values())
             )
+
+        return set().union(
+            iterated.explain(options),
+            *(iterable.explain(options) for iterable in self.iterables.values()),
+        )
 
     def _iter(
         self, options: Options
